@@ -25,86 +25,41 @@ Definition P_ext : params :=
 (* ------------------------------------------------------------------ statements *)
 (* the full property: no reachable configuration blocks for ever *)
 Definition C18_full : Prop := no_stuck_reachable P_all.
-
-(* the known self-deadlocks (F-C18b / F-C18c): reconnect() made from inside a user callback re-acquires
-   the plain lock _in_callback_mutex in _call_socket_close (F-C18b) resp. _call_socket_open (F-C18c).
-   Every one of the 14 callback kinds has an invocation site at which _in_callback_mutex is held. *)
-Definition known_callbacks : list N :=
-  [cb_on_connect; cb_on_connect_fail; cb_on_disconnect; cb_on_log; cb_on_message; cb_on_pre_connect;
-   cb_on_publish; cb_on_socket_close; cb_on_socket_open; cb_on_socket_register_write;
-   cb_on_socket_unregister_write; cb_on_subscribe; cb_on_unsubscribe; cb_topic_callback].
-
-Definition known_sites : list site :=
-  flat_map (fun c => [ (Some (c, m_reconnect), WLock l_priv_in_callback_mutex, m_priv_call_socket_close);
-                       (Some (c, m_reconnect), WLock l_priv_in_callback_mutex, m_priv_call_socket_open) ])
-           known_callbacks.
-
-Definition known_sites_ext : list site :=
-  known_sites ++
-  flat_map (fun c => [ (Some (c, m_connect), WLock l_priv_in_callback_mutex, m_priv_call_socket_close);
-                       (Some (c, m_connect), WLock l_priv_in_callback_mutex, m_priv_call_socket_open);
-                       (Some (c, m_connect_async), WLock l_priv_in_callback_mutex, m_priv_call_socket_close) ])
-           known_callbacks.
+Definition C18_full_connect : Prop := no_stuck_reachable P_ext.
 
 (* ------------------------------------------------------------------ the reachable sets, computed once *)
 Definition Ix_all : index := Eval vm_compute in explore P_all fuel.
 Definition Ix_nosock : index := Eval vm_compute in explore P_nosock fuel.
 Definition Ix_ext : index := Eval vm_compute in explore P_ext fuel.
 
-Lemma closed_all : closedb P_all known_sites Ix_all = true.
+Lemma closed_all : closedb P_all [] Ix_all = true.
 Proof. vm_cast_no_check (eq_refl true). Qed.
 
 Lemma closed_nosock : closedb P_nosock [] Ix_nosock = true.
 Proof. vm_cast_no_check (eq_refl true). Qed.
 
-Lemma closed_ext : closedb P_ext known_sites_ext Ix_ext = true.
+Lemma closed_ext : closedb P_ext [] Ix_ext = true.
 Proof. vm_cast_no_check (eq_refl true). Qed.
 
 (* ------------------------------------------------------------------ results *)
-(* A. every callback installed: no reachable configuration is stuck, except at the listed
-      (callback, reconnect, _in_callback_mutex, _call_socket_close | _call_socket_open) sites *)
-Lemma c18_partial :
-  forall cfg t, reachable P_all cfg -> stuck_info P_all cfg = Some t -> In t known_sites.
-Proof. exact (closed_sound_sites P_all known_sites Ix_all closed_all). Qed.
+(* A. every callback installed: nothing reachable blocks - for runs of any length and any
+      callback -> API -> callback nesting depth *)
+Lemma c18_full : C18_full.
+Proof. exact (closed_sound P_all Ix_all closed_all). Qed.
 
-(* ... and each listed site really is reachable and stuck (a concrete run is found and replayed) *)
-Lemma c18_refuted :
-  forall t, In t known_sites -> exists cfg, reachable P_all cfg /\ stuck_info P_all cfg = Some t.
-Proof.
-  apply (all_witnessed_sound P_all fuel known_sites). vm_cast_no_check (eq_refl true).
-Qed.
-
-Lemma c18_full_refuted : ~ C18_full.
-Proof.
-  intro Hfull.
-  destruct (c18_refuted (Some (cb_on_connect, m_reconnect), WLock l_priv_in_callback_mutex, m_priv_call_socket_close))
-    as [cfg [Hr Hs]].
-  - unfold known_sites, known_callbacks. cbn [flat_map app]. left; reflexivity.
-  - rewrite (Hfull cfg Hr) in Hs. discriminate.
-Qed.
-
-(* B. without on_socket_open / on_socket_close the FULL property holds: nothing reachable blocks *)
+(* B. the configuration without on_socket_open / on_socket_close (kept: it is a separate point of the
+      product {socket callbacks installed or not}; IfCb bodies are entered only for installed callbacks) *)
 Lemma c18_nosock : no_stuck_reachable P_nosock.
 Proof. exact (closed_sound P_nosock Ix_nosock closed_nosock). Qed.
 
-(* C. connect() / connect_async() from a callback: the same two lock sites, nothing else *)
-Lemma c18_ext_partial :
-  forall cfg t, reachable P_ext cfg -> stuck_info P_ext cfg = Some t -> In t known_sites_ext.
-Proof. exact (closed_sound_sites P_ext known_sites_ext Ix_ext closed_ext). Qed.
-
-Lemma c18_ext_refuted :
-  forall t, In t known_sites_ext -> exists cfg, reachable P_ext cfg /\ stuck_info P_ext cfg = Some t.
-Proof.
-  apply (all_witnessed_sound P_ext fuel known_sites_ext). vm_cast_no_check (eq_refl true).
-Qed.
+(* C. callbacks may also call connect() / connect_async() *)
+Lemma c18_full_connect : C18_full_connect.
+Proof. exact (closed_sound P_ext Ix_ext closed_ext). Qed.
 
 (* ------------------------------------------------------------------ non-vacuity and sanity of the generated object *)
-Definition subset_sites (a b : list site) : bool := forallb (fun t => mem_site t b) a.
-
-(* the stuck sites computed by the interpreter are exactly the listed ones *)
-Lemma stuck_sites_are_known :
-  subset_sites (stuck_sites_of P_all Ix_all) known_sites && subset_sites known_sites (stuck_sites_of P_all Ix_all) = true.
-Proof. vm_cast_no_check (eq_refl true). Qed.
+(* the interpreter meets no stuck site at all *)
+Lemma no_stuck_sites : stuck_sites_of P_all Ix_all = [] /\ stuck_sites_of P_ext Ix_ext = [].
+Proof. split; vm_cast_no_check (eq_refl (@nil site)). Qed.
 
 (* the entry points named in the design are entry points *)
 Lemma entries_cover :
@@ -117,9 +72,16 @@ Proof. vm_cast_no_check (eq_refl true). Qed.
    on_publish also runs under _out_message_mutex (PUBACK path) *)
 Definition cbctx_all : list (N * N) := Eval vm_compute in cb_contexts P_all fuel.
 
+(* the callback kinds the library runs under _in_callback_mutex (the socket callbacks and on_pre_connect
+   run under it only when nested in another callback's API call) *)
+Definition all_callback_kinds : list N :=
+  [cb_on_connect; cb_on_connect_fail; cb_on_disconnect; cb_on_log; cb_on_message; cb_on_pre_connect;
+   cb_on_publish; cb_on_socket_close; cb_on_socket_open; cb_on_socket_register_write;
+   cb_on_socket_unregister_write; cb_on_subscribe; cb_on_unsubscribe; cb_topic_callback].
+
 Lemma callbacks_run_under_lock :
   forallb (fun c => existsb (fun x => N.eqb (fst x) c && N.testbit (snd x) l_priv_in_callback_mutex) cbctx_all)
-          known_callbacks
+          all_callback_kinds
   && existsb (fun x => N.eqb (fst x) cb_on_publish && N.testbit (snd x) l_priv_out_message_mutex) cbctx_all = true.
 Proof. vm_cast_no_check (eq_refl true). Qed.
 
@@ -147,6 +109,25 @@ Definition P_noguard : params := mkParams prog_noguard lock_kinds c18_apis all_c
 Lemma noguard_detected :
   mem_site (Some (cb_on_connect, m_publish), WLock l_priv_in_callback_mutex, m_priv_packet_write)
            (stuck_sites P_noguard fuel) = true.
+Proof. vm_cast_no_check (eq_refl true). Qed.
+
+(* ... and with the shape _call_socket_open / _call_socket_close had before 5844bc2 (user callback called
+   inside `with self._in_callback_mutex`) the checker reports F-C18b/c again *)
+Definition relock (a : act) : act :=
+  match a with
+  | IfCb c b => IfCb c [Acq l_priv_in_callback_mutex b]
+  | x => x
+  end.
+Definition prog_oldsock : program :=
+  map (fun mb => if N.eqb (fst mb) m_priv_call_socket_close || N.eqb (fst mb) m_priv_call_socket_open
+                 then (fst mb, map relock (snd mb)) else mb) prog.
+Definition P_oldsock : params := mkParams prog_oldsock lock_kinds c18_apis all_callbacks c18_entries.
+
+Lemma old_socket_locking_detected :
+  let ss := stuck_sites P_oldsock fuel in
+  mem_site (Some (cb_on_connect, m_reconnect), WLock l_priv_in_callback_mutex, m_priv_call_socket_close) ss
+  && mem_site (Some (cb_on_disconnect, m_reconnect), WLock l_priv_in_callback_mutex, m_priv_call_socket_open) ss
+  && Nat.eqb (length ss) 28 = true.
 Proof. vm_cast_no_check (eq_refl true). Qed.
 
 (* the only potentially unbounded wait in the model (Condition.wait in wait_for_publish) is not reachable
